@@ -114,7 +114,7 @@ def execute(spec):
             for k, (tok, atok) in enumerate(zip(residues, ares)):
                 for j, bd in enumerate(tok.bond_descriptors):
                     node_of[(id(atok), j)] = bd
-            _state_invariants(G, residues, ares, node_of, viol, stats)
+            _state_invariants(G, residues, ares, node_of, viol, stats, ast)
             # building the graph again from the same object must give the same graph
             try:
                 from . import c10
@@ -215,7 +215,7 @@ def execute(spec):
             "trace": None}
 
 
-def _state_invariants(G, residues, ares, node_of, viol, stats):
+def _state_invariants(G, residues, ares, node_of, viol, stats, ast=None):
     n_tok = len(residues)
     n_bd = sum(len(t.bond_descriptors) for t in residues)
     if G.number_of_nodes() != n_tok + n_bd:
@@ -227,6 +227,7 @@ def _state_invariants(G, residues, ares, node_of, viol, stats):
             if nd is not None:
                 ast_of[id(nd)] = (atok, j)
     stats["graph_nodes_checked"] = stats.get("graph_nodes_checked", 0) + len(ast_of)
+    roles = ast.element_of() if ast is not None else {}
     for key, nd in node_of.items():
         if nd not in G:
             viol("descriptor_without_node", "a descriptor of the string has no node", ["static"])
@@ -244,6 +245,14 @@ def _state_invariants(G, residues, ares, node_of, viol, stats):
             if not (abs(sm - 1) < 1e-6 or abs(sm) < 1e-6):
                 ta, ja = ast_of[id(nd)]
                 viol("node_sum", f"{attr} out of {ta.descs[ja].text()}@{ta.name} sums to {sm!r}", ["static", "attr=" + attr])
+        # an end group has one descriptor, and that one is consumed when the end group is attached: generation never hands over
+        # to the next element (and never grows on) from an end-group descriptor, so no transition / reaction law may leave it
+        if ast is not None and id(nd) in ast_of:
+            ta, ja = ast_of[id(nd)]
+            role = roles.get(id(ta))
+            if role is not None and role[1] == "end" and len(ta.descs) == 1 and sums["trans_prob"] > 1e-12:
+                viol("transition_from_end_group", f"trans_prob edges (sum {sums['trans_prob']!r}) leave the end-group descriptor "
+                     f"{ta.descs[ja].text()}@{ta.name}: generation never hands over from an end group", ["static", "attr=trans_prob"])
 
 
 shrink_candidates = gc.shrink_candidates
